@@ -77,10 +77,10 @@ func runSLIMIT(e *Env) (*Summary, error) {
 		kvs := slimitStore(size)
 		if lims == nil {
 			lims = []limCase{{" limit 4294967296, 5", 4294967296, 5}, {" limit 0, 4294967296", 0, 4294967296}, {" limit 4294967296", 0, 4294967296}, {" limit 2147483648", 0, 2147483648},
-			{" limit 2, 2147483649", 2, 2147483649}, {" limit 2147483648, 1", 2147483648, 1}, {" limit 1, 4294967297", 1, 4294967297},
-			// "everything from row s on": offset + count passes the largest int
-			{" limit 1, 9223372036854775807", 1, 9223372036854775807}, {" limit 3, 9223372036854775805", 3, 9223372036854775805}, {" limit 9223372036854775807, 1", 9223372036854775807, 1},
-			{" limit 9223372036854775806, 9223372036854775807", 9223372036854775806, 9223372036854775807}, {" limit 2, 9223372036854775806", 2, 9223372036854775806}, {" limit 0, 9223372036854775807", 0, 9223372036854775807}}
+				{" limit 2, 2147483649", 2, 2147483649}, {" limit 2147483648, 1", 2147483648, 1}, {" limit 1, 4294967297", 1, 4294967297},
+				// "everything from row s on": offset + count passes the largest int
+				{" limit 1, 9223372036854775807", 1, 9223372036854775807}, {" limit 3, 9223372036854775805", 3, 9223372036854775805}, {" limit 9223372036854775807, 1", 9223372036854775807, 1},
+				{" limit 9223372036854775806, 9223372036854775807", 9223372036854775806, 9223372036854775807}, {" limit 2, 9223372036854775806", 2, 9223372036854775806}, {" limit 0, 9223372036854775807", 0, 9223372036854775807}}
 		}
 		for _, lim := range lims {
 			for _, sq := range slimitQueries {
